@@ -81,9 +81,14 @@ def write_dicts(
         if any(nodes_arr < 0):
             raise ValueError("Cannot write a geff with node ids that are negative")
         if not np.issubdtype(nodes_arr.dtype, np.integer):
-            warnings.warn(
-                f"Node ids with dtype {nodes_arr.dtype} are being cast to uint", stacklevel=2
-            )
+            if all(isinstance(idx, int | np.integer) for idx in node_ids):
+                # Integer ids below and above 2**63 are inferred as float64, which cannot
+                # represent them exactly: convert the integers directly
+                nodes_arr = np.asarray(node_ids, dtype="uint")
+            else:
+                warnings.warn(
+                    f"Node ids with dtype {nodes_arr.dtype} are being cast to uint", stacklevel=2
+                )
         nodes_arr = nodes_arr.astype("uint")
     else:
         nodes_arr = np.empty((0,), dtype=np.uint64)
